@@ -253,6 +253,33 @@ func VerifC17_P4_structured() {
 	sym.Assert(sym.Iff(pat.Matches(l), pat2.Matches(l)), "C17.P4.print-parse-preserves-matches")
 }
 
+// P6: a relative pattern means the same as its absolute spelling from the current package:
+// ":x" == "//cur:x" for x in {all, ..., a name}
+func VerifC17_P6_relative_equals_absolute() {
+	cur := sym.StringNAlpha("cur", bound(2, 3), "a/")
+	sym.Assume(cleanPkg(cur))
+	sym.Assume(cur != "") // the root package has its own spellings ("//...", "//:x"), covered by P1/P2
+	var rel, abs string
+	switch sym.Choice("form", 3) {
+	case 0:
+		rel, abs = ":all", "//"+cur+":all"
+	case 1:
+		rel, abs = ":...", "//"+cur+":..."
+	default:
+		n := sym.StringNAlpha("name", 2, "al")
+		rel, abs = ":"+n, "//"+cur+":"+n
+	}
+	p1, err1 := ParseTargetPattern(cur, rel)
+	p2, err2 := ParseTargetPattern(cur, abs)
+	sym.Assert((err1 == nil) == (err2 == nil), "C17.P6.relative-and-absolute-accepted-alike")
+	if err1 != nil || err2 != nil {
+		return
+	}
+	l := probeLabel()
+	sym.Assert(sym.Iff(p1.Matches(l), p2.Matches(l)), "C17.P6.relative-pattern-equals-absolute-spelling")
+	sym.Reach("P6.accepted")
+}
+
 // P5: TargetPatternFromLabel(l) matches exactly l; match-all matches everything
 func VerifC17_P5() {
 	pkg := sym.StringAlpha("l.pkg", 4, pkgAlpha)
